@@ -7,8 +7,9 @@ import TplModel.Spec.Walk
 * `parseDecInt (toString i)` for every integer `i`;
 * unfolding equations of `getValue` per kind of operand;
 * `EV.sliceOf`, `EV.indexName`: the pure functions computed by the `.slice` / `.index` cases of `EV.eval`
-  on evaluated operands (copied from the code of `eval`, which is still `partial` and therefore opaque to
-  proofs; once `eval` is total the cases can be rewritten with these functions by `rfl`-style lemmas);
+  on evaluated operands.  They are PROVED equal to the helper functions `eval` calls, `indexOp` and `sliceStep`,
+  in `TplModel/Proofs/AccessEval.lean` (`indexOp_eq_indexName`, `sliceOf_eq_asSlice`, `sliceStep_pure`), and
+  `TplModel/Props/C13eval.lean` restates C13 about `eval` itself (`eval_index`, `eval_slice`);
 * facts about the specification functions of `Spec/Walk.lean` (`elem`, `mapEntry`, `segment`) that tie them
   to the usual list operations. -/
 namespace EV
@@ -541,7 +542,8 @@ theorem afterMethods_stored (n : String) (v x : Val) (h : afterMethods n (some v
 /-! ## the pure functions computed by the `.index` and `.slice` cases of `eval` -/
 
 /-- the member name the `.index` case of `eval` derives from the evaluated index: the decimal rendering of
-    an integer of any kind, a string itself, nothing else (⇒ `setErr`) -/
+    an integer of any kind, a string itself, nothing else (⇒ `setErr`); `EV.indexOp_eq_indexName`
+    (Proofs/AccessEval.lean) proves that this is what `indexOp` computes -/
 def indexName (iv : Val) : Option String :=
   match isInt iv with
   | some v => some (toString v)
@@ -558,7 +560,10 @@ theorem indexName_str (s : String) : indexName (.str s) = some s := rfl
     error); `unsupported` = `unsupp` (outside the model); `notSliceable` = `setErr` -/
 inductive SliceRes | ok (v : Val) | panic | unsupported | notSliceable
 
-/-- copied from the `.slice` case of `EV.eval`; `getI x dflt` there is `x.getD dflt` here -/
+/-- the `.slice` case of `EV.eval` (`sliceStep`) on evaluated bounds, an omitted bound being `none`
+    (`x.getD dflt` here is `evalOpt none dflt` there).  Not a mere copy: `EV.sliceStep_pure`
+    (Proofs/AccessEval.lean) proves `sliceStep pv … = (sliceOf pv lo hi cap).toM`, and `C13.eval_slice`
+    that a run of `eval` on `.slice` is the run of this outcome. -/
 def sliceOf (pv : Val) (lo hi cap : Option Int) : SliceRes :=
   let asSlice : Option (String × List Val × Nat) := match pv with
     | .slice sty xs c => some (sty, xs, c)
